@@ -208,3 +208,84 @@ def run(rep, ctx):   # noqa: F811  (final definition)
     run_T(rep, g)
     reach = run_T3(rep, g)
     run_P(rep, g, reach)
+    run_N(rep, g, reach)
+
+
+def run_N(rep, g, reach, scope_name='read-reachable'):
+    """N: narrowing / sign-changing integer casts must be value-preserving by interval + guard
+    reasoning, a cast-and-compare-back idiom, or an exact-key reviewed entry."""
+    from .. import panic_sites as ps
+    from ..summaries import Summaries
+    from ..ranges import type_range
+    rep.rule('N', 'narrowing-cast discipline: every IntToInt cast that can lose bits or change sign in %s code is '
+             'value-preserving for the operand range proven at that point, is compared back against its source, or is reviewed' % scope_name)
+    S = Summaries(g)
+    from collections import Counter
+    cnt = Counter()
+    n = 0
+    for p in sorted(reach):
+        fn = g.fns[p]
+        casts = ps.narrowing_casts(g, fn)
+        if not casts:
+            continue
+        ev = S.ev(fn)
+        for bi, st, sty, tty in casts:
+            n += 1
+            rv = st[2]
+            src = ev.val(rv[2], bi)
+            tr = type_range(tty)
+            expr = '%s as %s' % (fn.fmt_op(rv[2], 5), tty)
+            base = '%s | cast %s->%s | %s' % (fn.path, sty, tty, expr)
+            cnt[base] += 1
+            key = base if cnt[base] == 1 else '%s #%d' % (base, cnt[base])
+            loc = fn.loc(st[3])
+            if src is not None and src[0] >= tr[0] and src[1] <= tr[1]:
+                rep.ok('N', key, 'value-preserving: operand in %s' % (src,), loc, why='interval')
+                continue
+            if _compared_back(fn, st, sty):
+                rep.ok('N', key, 'cast result is converted back and compared with its source', loc, why='cast-and-compare-back idiom')
+                continue
+            rep.bad('N', key, 'cast %s -> %s of `%s` may truncate or change sign (operand range %s)' % (sty, tty, fn.fmt_op(rv[2], 5), src), loc)
+    rep.floor('N', 'narrowing casts analysed', n, 90)
+    return n
+
+
+def _compared_back(fn, st, sty):
+    """`let y = x as T; if U::from(y) == x` / `y as U == x` shape: the narrowed local is widened
+    again and the result feeds an Eq/Ne comparison."""
+    dst = st[1]
+    if len(dst) != 1:
+        return False
+    y0 = dst[0]
+    aliases = {y0}
+    changed = True
+    while changed:
+        changed = False
+        for bi in fn.reach:
+            for s2 in fn.stmts(bi):
+                if s2[0] == 'a' and len(s2[1]) == 1 and s2[2][0] == 'use' and s2[2][1][0] in ('c', 'm') \
+                        and len(s2[2][1][1]) == 1 and s2[2][1][1][0] in aliases and s2[1][0] not in aliases:
+                    aliases.add(s2[1][0])
+                    changed = True
+    widened = set()
+    for y in aliases:
+      for bi in fn.reach:
+          for s2 in fn.stmts(bi):
+              if s2[0] == 'a' and s2[2][0] == 'cast' and s2[2][2][0] in ('c', 'm') and s2[2][2][1] == [y]:
+                  widened.add(s2[1][0])
+          t = fn.term(bi)
+          if t['k'] == 'call' and t['f'].get('name') in ('from', 'into') and t['a'] and t['a'][0][0] in ('c', 'm') and t['a'][0][1] == [y]:
+              widened.add(t['d'][0])
+    # copies of y
+    for bi in fn.reach:
+        for s2 in fn.stmts(bi):
+            if s2[0] == 'a' and s2[2][0] == 'bin' and s2[2][1] in ('Eq', 'Ne'):
+                for o in (s2[2][2], s2[2][3]):
+                    if o[0] in ('c', 'm') and len(o[1]) == 1:
+                        l = o[1][0]
+                        if l in widened:
+                            return True
+                        sd = fn.single_def(l)
+                        if sd and sd[1] != 'term' and sd[2][0] == 'use' and sd[2][1][0] in ('c', 'm') and sd[2][1][1] and sd[2][1][1][0] in widened:
+                            return True
+    return False
